@@ -83,6 +83,8 @@ func run(c *harness.Ctx, i int) {
 			sshSession(c)
 		case 19:
 			hasSemantics(c)
+		case 29:
+			damagedConcurrent(c)
 		default:
 			sshBehindHTTP(c)
 		}
@@ -916,6 +918,75 @@ func sshSession(c *harness.Ctx) {
 	c.Count("ssh_sessions", 1)
 	c.NonTrivial("ssh-session|u%v", uncompressed)
 	c.Sample(map[string]interface{}{"leg": "ssh-session", "requests": len(seq)})
+}
+
+// (d2) a chunk server that has to convert (-u over a compressed store, reads not verified: the default) in front of a
+// chunk file that was cut short behind its first compressed block, asked for the chunk by several clients at the same
+// time (they share one request and one chunk object inside the server): every answer is a failure, or the chunk.
+func damagedConcurrent(c *harness.Ctx) {
+	rng := c.Rng
+	dir := c.CaseDir()
+	store := filepath.Join(dir, "store")
+	os.MkdirAll(store, 0755)
+	ls, _ := desync.NewLocalStore(store, desync.StoreOptions{})
+	data := make([]byte, 300<<10+rng.Intn(200<<10))
+	rng.Read(data)
+	id := dsu.Sum(data)
+	dsu.Must(ls.StoreChunk(desync.NewChunk(data)))
+	name := filepath.Join(store, id.String()[:4], id.String()+".cacnk")
+	raw, _ := os.ReadFile(name)
+	cut := 140<<10 + rng.Intn(len(raw)-(150<<10))
+	dsu.WriteFile(name, raw[:cut])
+	verifyRead := rng.Intn(4) == 0
+	c.Info("damaged-concurrent chunk=%d bytes file cut at %d of %d verify-read=%v", len(data), cut, len(raw), verifyRead)
+	c.LogInfo()
+	addr, cmd, err := dsu.StartServerCmd(func(addr string) *exec.Cmd {
+		a := []string{"chunk-server", "-u", "-s", store, "-l", addr}
+		if verifyRead {
+			a = append(a, "--skip-verify-read=false")
+		}
+		cmd := exec.Command(cli, a...)
+		cmd.Env = append(os.Environ(), "HOME="+dir)
+		return cmd
+	})
+	if err != nil {
+		c.Skip("chunk-server: %v", err)
+		return
+	}
+	defer dsu.StopServerCmd(cmd)
+	type ans struct {
+		status int
+		body   []byte
+		err    error
+	}
+	for round := 0; round < 2; round++ {
+		out := make(chan ans, 8)
+		for g := 0; g < 6; g++ {
+			go func() {
+				resp, err := http.Get("http://" + addr + "/" + id.String()[:4] + "/" + id.String())
+				if err != nil {
+					out <- ans{err: err}
+					return
+				}
+				b, rerr := io.ReadAll(resp.Body)
+				resp.Body.Close()
+				out <- ans{resp.StatusCode, b, rerr}
+			}()
+		}
+		for g := 0; g < 6; g++ {
+			a := <-out
+			if a.err == nil && a.status == 200 && !bytes.Equal(a.body, data) {
+				c.Violation("failure-reported-as-success:damaged-concurrent", "chunk server (-u, verify-read=%v) over a chunk file cut short (%d of %d bytes), six clients at once: one was answered 200 with %d bytes that are not the chunk (%d bytes)", verifyRead, cut, len(raw), len(a.body), len(data))
+				return
+			}
+			if a.err == nil && a.status == 404 {
+				c.Violation("failure-reported-as-missing:damaged-concurrent", "chunk server over a chunk file cut short answered 404")
+				return
+			}
+		}
+	}
+	c.Count("damaged_chunks_asked_for_concurrently", 1)
+	c.NonTrivial("damaged-concurrent|v%v", verifyRead)
 }
 
 // (e) HasChunk over the other remote transports: absent is (false, nil) - the router and the cache rely on that -, a
